@@ -668,10 +668,11 @@ class OPENQASMVisitor(Visitor):
             # List of ids, e.g. q, r, but without indices
             ids = []
             tree_iter = qlist
+            # The grammar is left-recursive: idlist -> idlist "," ID
             while len(tree_iter.children) == 2:
-                ids.append(str(tree_iter.children[0]))
-                tree_iter = tree_iter.children[1]
-            ids.append(str(tree_iter.children[0]))
+                ids.insert(0, str(tree_iter.children[1]))
+                tree_iter = tree_iter.children[0]
+            ids.insert(0, str(tree_iter.children[0]))
 
             out_idxs = []
             for qubit_id in ids:
